@@ -112,6 +112,9 @@ class Aff:
             if v[0] == "i":
                 I = self.f.insts[v[1]]
                 if I.op == "phi":
+                    # a merge value: its own affine description if it has one (a cursor paired with the remaining length), else itself
+                    if I.id in (self._pairs or {}) or (self._pairs is None and self.paired(I) is not None):
+                        return self.paired(I)
                     return Lin.sym(v)
             return self.value(v)
         if k == "add":
@@ -296,7 +299,7 @@ class Aff:
                         var = G.get("var") or []
                         if len(var) != 1 or int(var[0][1]) != 1 or self._strip(tuple(var[0][0])) != x:
                             continue
-                        adv = ("adv", P.id)
+                        adv = ("adv", N.id)         # one symbol per remaining length: every cursor advanced by the same amount shares it
                         self._pairs[P.id] = (pp[0], 1, adv)
                         self._pairs[N.id] = (pn[0], -1, adv)
         ent = self._pairs.get(I.id)
